@@ -11,6 +11,38 @@
 
 package fptower
 
+// The smaller extensions exponentiate bit by bit (square, then multiply when the bit is set), most significant bit
+// first; the eight bits of a byte are unrolled and cut after every squaring.
+//@ func E2.Exp
+//@ layer module E2 bigint big.Int
+//@ option opaque Get Put
+//@ option typed-pool
+//@ option split-post
+//@ smt (define-fun-rec big.frombytes ((a (Array Int Int)) (off Int) (n Int)) Int (ite (<= n 0) 0 (+ (* 256 (big.frombytes a off (- n 1))) (select a (+ off (- n 1))))))
+//@ ghost r0 = 0
+//@ ghost xx = ite(*k < 0, -x, x)
+//@ loop 0
+//@ + invariant[prefix] 0 <= i && i <= len(b) && *z == bepre(b, i) * xx
+//@ + ghost-post r0 = *z
+//@ cut after call Square #2
+//@ + invariant[bit7] *z == 4*r0 + 2*(w/128)*xx
+//@ cut after call Square #3
+//@ + invariant[bit6] *z == 8*r0 + 2*(w/64)*xx
+//@ cut after call Square #4
+//@ + invariant[bit5] *z == 16*r0 + 2*(w/32)*xx
+//@ cut after call Square #5
+//@ + invariant[bit4] *z == 32*r0 + 2*(w/16)*xx
+//@ cut after call Square #6
+//@ + invariant[bit3] *z == 64*r0 + 2*(w/8)*xx
+//@ cut after call Square #7
+//@ + invariant[bit2] *z == 128*r0 + 2*(w/4)*xx
+//@ cut after call Square #8
+//@ + invariant[bit1] *z == 256*r0 + 2*(w/2)*xx
+//@ ensures[value] *z == *k * old(x)
+//@ ensures[result] result == z
+//@ modifies z
+//@ end
+
 //@ func E12.Exp
 //@ layer module E12 bigint big.Int
 //@ option opaque Get Put
